@@ -169,6 +169,13 @@ fn cases() -> Vec<Case> {
         case("spin: wait for an int cell to change", C0, "", &[one!("{ while *c == 0 { }; *c }"), one!("c = 1")], Some(3), false),
         case("spin: wait for a bool cell, then answer through another cell", &[("c", "bool", "false"), ("d", "int", "0")], "", &[one!("{ while !(*c) { }; d = 5; *d }"), one!("{ c = true; while *d == 0 { }; *d }")], Some(3), false),
         case("spin: wait with a comparison of two cells", AB, "", &[one!("{ while *a < *b { }; (*a, *b) }"), one!("a += 5")], Some(3), false),
+        // 14. threads that are deep inside nested calls at the same moment (each stops at a private
+        //     cell at the bottom of its recursion, where the scheduler may let the other run down to
+        //     its own bottom): whatever is kept per call - a depth, a frame, a scratch buffer -
+        //     belongs to the run, not to the process
+        case("deep recursion, private cells, two threads", NONE, "shared := (n: int, k: mut int) -> int { if n <= 0 { k += 1; return *k }; return 1 + shared(n - 1, k) }", &[one!("shared(100, mut 0)"), one!("shared(100, mut 5)")], Some(2), false),
+        case("deep recursion through a loop body and an argument, two threads", NONE, "shared := (n: int, k: mut int) -> int { if n <= 0 { k += 1; return *k }; r := mut 0; for e in [n]~ { r = shared(e - 1, k) }; return *r + 1 }", &[one!("shared(35, mut 0)"), one!("shared(35, mut 5)")], Some(1), false),
+        case("deep recursion, private cells, three threads (bound 2)", NONE, "shared := (n: int, k: mut int) -> int { if n <= 0 { k += 1; return *k }; return 1 + shared(n - 1, k) }", &[one!("shared(45, mut 0)"), one!("shared(45, mut 5)"), one!("shared(45, mut 9)")], Some(2), true),
         // deeper thorough-only explorations
         case("three threads, two ops each (bound 2)", C0, "", &[("{ c += 1; c *= 2 }", &["c += 1", "c *= 2"]), ("{ c += 3; c -= 1 }", &["c += 3", "c -= 1"]), ("{ c *= 3; c += 5 }", &["c *= 3", "c += 5"])], Some(2), true),
         case("two threads, four ops each (bound 3)", C0, "", &[("{ c += 1; c *= 2; c -= 3; c += 7 }", &["c += 1", "c *= 2", "c -= 3", "c += 7"]), ("{ c *= 5; c += 2; c /= 2; c -= 1 }", &["c *= 5", "c += 2", "c /= 2", "c -= 1"])], Some(3), true),
